@@ -544,6 +544,6 @@ def main(pid, fn):
     except Exception:
         import traceback
         traceback.print_exc()
-        print("INCONCLUSIVE property=%s internal error in the check machinery" % pid, flush=True)
+        print("INCONCLUSIVE %s=%s internal error in the check machinery" % ("spec" if pid.startswith("E") else "property", pid), flush=True)
         rc = 2
     sys.exit(rc)
